@@ -207,5 +207,24 @@ PROPS.update({
         "assumptions": ["well-formed tree = names are what the lexer can produce (identifiers are not keywords; field names are identifiers or contextual keywords); integers below 2^63",
                         "string escapes are not part of the language (not interpreted by the implementation): literals with a backslash are outside the model"],
     },
+    "C14": {
+        "level": "proof",
+        "audit_imports": ["SpecVerif.Props.C14", "SpecVerif.Props.C15Lex", "SpecVerif.TiesLang", "SpecVerif.TiesMpx"],
+        "lean_targets": ["SpecVerif.Props.C14", "SpecVerif.Props.C15Lex", "SpecVerif.TiesLang", "SpecVerif.TiesMpx", "langdriver"],
+        "go_cmds": ["langc"],
+        "theorems": ["SpecVerif.C14." + t for t in ["fieldsOK_iff", "enumOK_iff", "dup_tag_rejected", "dup_field_name_rejected", "zero_tag_rejected",
+                     "tag_out_of_range_rejected", "unknown_type_rejected", "service_type_rejected", "enum_no_zero_rejected", "enum_dup_number_rejected",
+                     "enum_dup_name_rejected", "enum_out_of_range_rejected", "struct_list_rejected", "struct_message_rejected", "struct_self_rejected",
+                     "channel_non_message_rejected", "input_non_message_rejected", "dup_method_rejected", "dup_definition_rejected",
+                     "circular_import_rejected", "missing_import_rejected", "bad_import_rejected"]] + ["SpecVerif.C15.parse_print"],
+        "ties": LANG_TIES,
+        "streams": [{"name": "c14", "gen": ["{bin}/langc", "gen", "c14", "{seed}", "{tier}", "{stats}"], "go": ["{bin}/langc"], "lean": ["{lean}/langdriver"]}],
+        "flag": r" VIOL ",
+        "diff_ignore": lang_unmodelled,
+        "rule": "one evaluation = one bundle of schema packages compiled by the implementation (compiler + generator, then `go build` of everything that was accepted) and judged by the Lean rule model; classes: valid (must be accepted and compile), mut:<rule> (one operator per rule of the language, must be rejected with an error naming the element), sem (random semantic edits: verdicts must agree), fuzz (token/character damage: no panic, no hang), probe (fixed cases)",
+        "trusted": ["the Go toolchain decides 'the output compiles'; that clause is tested on every accepted schema, not proved",
+                    "the rule model (Lang/Check.lean) is hand-written from internal/lang/model and compared with the compiler on every line"],
+        "assumptions": ["partial: 'accepted schemas produce code the Go compiler accepts' and 'never panics or hangs' are decided by running the compiler and go build on the stream (about 600 bundles per quick run), not by a theorem",
+                        "import ids are plain names (directory names) in the model"],
+    },
 })
-
